@@ -201,6 +201,10 @@ def _ground_int_facts(it, extra):
 
 def binop(it, op, a, b, inplace=False):
     k = type(op)
+    if (isinstance(a, Opaque) or isinstance(b, Opaque)) and hasattr(it.world, "binop"):
+        r = it.world.binop(it, op, a, b)
+        if r is not NotImplemented:
+            return r
     # concrete fast path
     if isinstance(a, (int, float, str, tuple)) and isinstance(b, (int, float, str, tuple)) and not (
         isinstance(a, tuple) and any(isinstance(x, SV) for x in a)
